@@ -193,6 +193,37 @@ func runC14(p *core.Prog, r *core.Report, tier string) {
 	}
 	r.Floor("C14.a subscription-building loops", nA, 2)
 
+	// ---- (i): the information returned to the controller is calculated from all duties of the epoch ----
+	nI := 0
+	for _, f := range p.FuncsIn("services/beaconcommitteesubscriber/standard") {
+		for _, ci := range core.Calls(f, func(c *ssa.CallCommon) bool {
+			callee := c.StaticCallee()
+			return callee != nil && callee.Name() == "calculateSubscriptionInfo"
+		}) {
+			nI++
+			args := ci.Common().Args
+			okDuties, okAccounts := false, false
+			var what string
+			for _, a := range args {
+				if sl, ok := a.Type().Underlying().(*types.Slice); ok && strings.HasSuffix(sl.Elem().String(), "attester.Duty") {
+					d := ds.D(a)
+					what = d.String()
+					ds0 := d.String()
+					okDuties = strings.HasPrefix(ds0, "services/attester.MergeDuties(") && strings.HasSuffix(ds0, ")#0") && d.MentionsCall("AttesterDuties")
+				}
+				if _, ok := a.Type().Underlying().(*types.Map); ok {
+					if prm, ok := a.(*ssa.Parameter); ok && prm.Parent() == f {
+						okAccounts = true
+					}
+				}
+			}
+			r.Check(okDuties, "C14.i", core.FnKey(f)+"|info-from-all-duties", p.Pos(ci.Pos()), "the subscription info is calculated from the merged duties of the whole response",
+				"the subscription info handed back to the controller is calculated from "+what+", not from all merged duties of the beacon node's response: slots left out (e.g. the current slot) have no aggregator information, so no aggregation job is set up for their selected aggregators")
+			r.Check(okAccounts, "C14.i", core.FnKey(f)+"|info-for-all-accounts", p.Pos(ci.Pos()), "the subscription info is calculated for the accounts passed in", "the subscription info is not calculated for the accounts the caller passed")
+		}
+	}
+	r.Floor("C14.i subscription info calculations", nI, 1)
+
 	// ---- (d): aggregation scheduling ----
 	nD := 0
 	for _, f := range p.FuncsIn(ctrlRel) {
@@ -211,6 +242,8 @@ func runC14(p *core.Prog, r *core.Report, tier string) {
 			for _, l := range loopsContainingPos(p, f, ci.Pos()) {
 				noEarlyExit(p, r, "C14.d", l, "loop over the slot's attestations")
 			}
+			// the only reasons for which an attestation of the loop gets no aggregation job
+			checkSkipConditions(p, r, ds, f, in)
 			// guarded by IsAggregator
 			w := core.Unguarded(ds, f, nil, func(x ssa.Instruction) bool { return x == in }, func(c core.Cond) int {
 				if c.B != nil && c.B.HasFieldSuffix("IsAggregator") {
@@ -662,4 +695,110 @@ func checkEpochPairing(p *core.Prog, r *core.Report, ds *core.Describer, rule st
 		}
 	}
 	return n
+}
+
+
+// checkSkipConditions: in the loop around the scheduling call, every branch that decides whether the call
+// is reached in this iteration is of one of the kinds the property allows: a presence flag of a lookup, a
+// nil/err test, an emptiness test, the IsAggregator flag, or "the attestation's slot is before the current
+// slot" (strictly). Anything else (for instance wall-clock comparisons finer than the slot) withholds the
+// job from a selected aggregator.
+func checkSkipConditions(p *core.Prog, r *core.Report, ds *core.Describer, f *ssa.Function, sched ssa.Instruction) {
+	sb := sched.Block()
+	// innermost loop header around the call
+	var header *ssa.BasicBlock
+	for _, h := range f.Blocks {
+		if !h.Dominates(sb) {
+			continue
+		}
+		back := false
+		for _, pr := range h.Preds {
+			if h.Dominates(pr) {
+				back = true
+			}
+		}
+		if back && (header == nil || header.Dominates(h)) {
+			header = h
+		}
+	}
+	if header == nil {
+		return
+	}
+	// blocks from which the call is reached without passing the header again
+	reach := map[*ssa.BasicBlock]bool{sb: true}
+	for changed := true; changed; {
+		changed = false
+		for _, b := range f.Blocks {
+			if reach[b] || b == header || !header.Dominates(b) {
+				continue
+			}
+			for _, s := range b.Succs {
+				if reach[s] && s != header {
+					reach[b] = true
+					changed = true
+				}
+			}
+		}
+	}
+	n := 0
+	for _, b := range f.Blocks {
+		if !header.Dominates(b) || b == header || len(b.Instrs) == 0 {
+			continue
+		}
+		ifi, ok := b.Instrs[len(b.Instrs)-1].(*ssa.If)
+		if !ok || !reach[b] && b != sb {
+			continue
+		}
+		r0, r1 := reach[b.Succs[0]] && b.Succs[0] != header, reach[b.Succs[1]] && b.Succs[1] != header
+		if b.Dominates(sb) == false || r0 == r1 {
+			continue
+		}
+		skipEdge := 0
+		if r0 {
+			skipEdge = 1
+		}
+		n++
+		c := core.DecodeCond(ds, ifi)
+		kind := ""
+		switch {
+		case c.B != nil && c.B.Val != nil:
+			if ex, ok := c.B.Val.(*ssa.Extract); ok {
+				switch ex.Tuple.(type) {
+				case *ssa.Lookup, *ssa.TypeAssert:
+					kind = "presence flag"
+				}
+			}
+			if c.B.Kind == "field" && c.B.Name == "IsAggregator" {
+				kind = "aggregator flag"
+			}
+		case c.Op != "":
+			isNil := func(d *core.VD) bool { return d.Kind == "const" && d.Name == "nil" }
+			isConst := func(d *core.VD) bool { return d.Kind == "const" }
+			switch {
+			case isNil(c.X) || isNil(c.Y):
+				kind = "nil test"
+			case (c.X.Kind == "len" && isConst(c.Y)) || (c.Y.Kind == "len" && isConst(c.X)):
+				kind = "emptiness test"
+			default:
+				slotSide := func(d *core.VD) bool { return d.Kind == "field" && d.Name == "Slot" || d.IsCall("Duty.Slot") }
+				curSide := func(d *core.VD) bool { return d.MentionsCall("CurrentSlot") }
+				rel := c.RelOnEdge(skipEdge)
+				if slotSide(c.Y) && curSide(c.X) {
+					rel = core.FlipRel(rel)
+				} else if !(slotSide(c.X) && curSide(c.Y)) {
+					break
+				}
+				if rel == "<" {
+					kind = "slot before current slot"
+				} else {
+					kind = ""
+					r.Violate("C14.d", fmt.Sprintf("%s|skip-condition#%d", core.FnKey(f), n), p.Pos(core.IfPos(ifi)), "the aggregation job is withheld when the attestation's slot is '"+rel+"' the current slot, expected only '<' (past slots)")
+					continue
+				}
+			}
+		}
+		r.Check(kind != "", "C14.d", fmt.Sprintf("%s|skip-condition#%d", core.FnKey(f), n), p.Pos(core.IfPos(ifi)), "the job can be withheld here only on a "+kind,
+			"an attestation's aggregation job can be withheld on a condition that is none of: lookup presence, nil/error, emptiness, IsAggregator, slot < current slot (e.g. a wall-clock comparison inside the slot): a selected aggregator of the slot gets no aggregation job")
+	}
+	r.Floor("C14.d conditions deciding whether the aggregation job is set up", n, 4)
 }
